@@ -1,9 +1,11 @@
 import CsVerif.Model.C01
 /-! Line-protocol driver for the C01 model.
 
-  ext    <b|F|f> <B> <allkeys T|F> <keys> <data> <expect>     → ok <xorkey> <T|F> <len>.<ck> <n> <setting>… | exc <E>
-         `BeaconConfig.from_bytes / from_file` (`b`, `F<pos>` = io.BytesIO, the latter standing at `pos` when passed in) or `from_path` (`f` = OS file); the detector answer, the
-         position a failed detection leaves and the residual key order are computed by `detectRun` / `leftKeys`;
+  ext    <b|F|f> <B> <allkeys T|F> <keys> <data> <expect>     → ok <xorkey> <T|F> <len>.<ck> <n> <setting>… [guard <key> <bco> <gco> <checksum>] | exc <E>
+         `BeaconConfig.from_bytes / from_file` (`b`, `F<pos>` = io.BytesIO, the latter standing at `pos` when passed in) or `from_path` (`f` = OS file):
+         `C01.fromFileReal` — the function the end-to-end theorems of `Props/C01.lean` are about (detector, both search
+         phases, computed residual key order, Guardrails fallback); the `guard …` suffix is present for a Guardrails
+         recovery (`bconfig.guardrails`: environmental key, offsets, stored checksum);
          `<expect>` (ground truth of the harness' builder) is ignored here.
   blocks <b|f> <B> <xordecode T|F> <allkeys T|F> <keys> <data> → <n> (<xorkey>:<T|F>:<len>.<ck>)* end | … exc <E>
          `iter_beacon_config_blocks` run to completion (`xordecode=F` only with `allkeys=F`)
@@ -58,17 +60,18 @@ def detOf (B : Nat) (f : PyFile) : Py (Option Nat × Nat) :=
   | .ok (some x, f') => .ok (some x.nonceOff, f'.pos)
   | .ok (none, f') => .ok (none, f'.pos)
 
-def runExt (B : Nat) (f : PyFile) (keys : List Bytes) (allKeys : Bool) : Py Result :=
-  match detOf B f with
-  | .error e => .error e
-  | .ok (det, failPos) =>
-    -- the retry order is only computed by the code when the first pass found nothing
-    let first := pass B f (effKeys keys) true det
-    if first.1 ≠ [] ∨ first.2.isSome ∨ !allKeys then fromFile B f keys allKeys det [] none
-    else
-      match leftKeys B f det failPos keys with
-      | .error e => .error e
-      | .ok left => fromFile B f keys allKeys det left none
+def showOptBytes : Option Bytes → String
+  | none => "none"
+  | some b => showBytes b
+
+def showExtracted (x : Extracted) : String :=
+  let ss := x.settings
+  let base := [showBytes x.xorkey, showBool x.xorencoded, showBlk x.block, toString ss.length] ++ ss.map showSetting
+  " ".intercalate (base ++
+    match x.guardrails with
+    | none => []
+    | some m => ["guard", showOptBytes m.payloadXorKey, toString m.beaconConfigOffset, toString m.guardConfigOffset,
+                 toString m.checksum])
 
 def runBlocks (B : Nat) (f : PyFile) (keys : List Bytes) (xordecode allKeys : Bool) : Py Blocks :=
   match detOf B f with
@@ -89,7 +92,7 @@ def step : List String → String
   | ["ext", k, b, ak, ks, d, _expect] =>
     match kindTok k, natTok b, boolTok ak, keysTok ks, bytesTok d with
     | some k, some b, some ak, some ks, some d =>
-      if b = 0 then "bad-op" else showPy showResult (runExt b { data := d, pos := k.2, kind := k.1 } ks ak)
+      if b = 0 then "bad-op" else showPy showExtracted (fromFileReal b { data := d, pos := k.2, kind := k.1 } ks ak)
     | _, _, _, _, _ => "bad-op"
   | ["blocks", k, b, xd, ak, ks, d] =>
     match kindTok k, natTok b, boolTok xd, boolTok ak, keysTok ks, bytesTok d with
